@@ -15,9 +15,12 @@ function plan (ctx, o = {}) {
     picks = []
     const nCfg = o.thoroughCorpusConfigs || 3
     files.forEach((f, i) => { for (let c = 0; c < nCfg; c++) picks.push({ name: f.name, kind: f.kind, cfg: cfgNames[(i + c * 3 + ctx.seed) % cfgNames.length] }) })
+    files.forEach((f, i) => picks.push({ name: f.name, kind: f.kind, cfg: cfgNames[(i + 1 + ctx.seed) % cfgNames.length], eol: i % 4 ? 'crlf' : 'cr' }))
   } else {
     const n = o.quickCorpus === undefined ? 150 : o.quickCorpus
     picks = rng.sample(files, n).map((f, i) => ({ name: f.name, kind: f.kind, cfg: cfgNames[(i + ctx.seed) % cfgNames.length] }))
+    // a slice of the same files with Windows line endings
+    rng.sample(files, Math.ceil(n / 5)).forEach((f, i) => picks.push({ name: f.name, kind: f.kind, cfg: cfgNames[(i + 1 + ctx.seed) % cfgNames.length], eol: 'crlf' }))
   }
   for (const c of chunk(picks, o.corpusPerShard || 25)) shards.push({ kind: 'corpus', items: c })
   if (o.generated !== false) {
@@ -29,9 +32,9 @@ function plan (ctx, o = {}) {
 function jobs (spec, ctx) {
   if (spec.kind === 'corpus') {
     return spec.items.map(it => ({
-      code: corpus.read(it.name),
+      code: execwork.withEol(corpus.read(it.name), it.eol || 'lf'),
       file: '/app/lib/' + it.name,
-      meta: { kind: 'corpus', name: it.name, module: it.kind === 'module', sigBase: 'corpus:' + it.name },
+      meta: { kind: 'corpus', name: it.name, module: it.kind === 'module', sigBase: 'corpus:' + it.name + (it.eol ? ':' + it.eol : ''), eol: it.eol },
       config: SETS[it.cfg],
       cfgKey: it.cfg,
       cfgName: it.cfg
